@@ -305,6 +305,29 @@ def oracle_shape(op, o, where, out):
                     % (where, op["shape"], total, op.get("k", 0), o["pos"])))
 
 
+ERR_VALUES = {200: "io.ErrUnexpectedEOF", 201: "io.ErrClosedPipe", 202: "io.ErrShortBuffer", 203: "io.ErrNoProgress",
+              204: "os.ErrDeadlineExceeded", 205: "context.Canceled", 206: 'fmt.Errorf("%w", io.EOF)',
+              207: "an error whose Is(io.EOF) is true", 208: "io.ErrShortWrite",
+              209: 'fmt.Errorf("%w", io.ErrUnexpectedEOF)', 210: 'errors.New("EOF")', 255: "a panic"}
+
+
+def oracle_failed_input(op, o, expected, where, out):
+    """a Create whose input failed (any read error but the bare io.EOF) returns an error and leaves nothing"""
+    content, st_, e_ = script_delivered(op.get("script"))
+    if st_ != 2:
+        return
+    ls = op.get("ls") or {}
+    stray = sorted(set(ls.get("keys", [])) - set(expected))
+    if o["t"] == "key" or stray or ls.get("tmps"):
+        what = ("%s: the input failed with %s after %d byte(s)%s; Create returned %s; the store directory then holds "
+                "object(s) %s (created by nobody) and %d temp file(s)"
+                % (where, ERR_VALUES.get(e_, "a custom error value (code %d)" % e_), len(content),
+                   " [a %s reader]" % op["shape"] if op.get("shape") else "",
+                   "the key %s and a nil error" % o.get("key") if o["t"] == "key" else "an error (%s)" % o["t"],
+                   [k[:16] + ".." for k in stray] or "none", len(ls.get("tmps") or [])))
+        out.append(("fs-fault:created-from-failed-input", what))
+
+
 def oracle_fs_hist(c):
     out = []
     expected = {}
@@ -315,6 +338,7 @@ def oracle_fs_hist(c):
         if op["op"] == "create":
             oracle_create(o, op.get("script"), op.get("fault"), expected, where, out)
             oracle_shape(op, o, where, out)
+            oracle_failed_input(op, o, expected, where, out)
         elif op["op"] == "open":
             oracle_read(o, op.get("key", ""), expected, where, out)
         elif op["op"] == "has":
@@ -843,6 +867,8 @@ def run(ck):
         size = None
         for cls, why in impl_oracle(c):
             key = "impl:%s:%s" % (c["stream"].split("-")[0], cls)
+            if cls.startswith("fs-fault:"):
+                key = "impl:" + cls
             if size is None:
                 size = len(json.dumps(c))
             ent = found.setdefault(key, [0, None, None, None])
